@@ -159,6 +159,8 @@ def parse_vspec(path):
                 cur_src["known_lits"] += json.loads(open(os.path.join(VERIF, "specs", "templates", rest)).read())
             elif d == "parse_f64":
                 cur_src["parse_f64"] = True
+            elif d == "keep_helpers":
+                cur_src["keep_helpers"] = True
             elif d == "strlit_facts":
                 cur_src["strlit_facts"] = True
             elif d == "external_all":
